@@ -344,6 +344,11 @@ class Range(object):
                 if _tools.is_eof_token(next_token):
                     end_reached = True
 
+            if not self._items:
+                raise errors.InterfaceError(
+                    "range must contain at least one number but is: %s" % _compat.text_repr(description), location
+                )
+
             self._lower_limit = None
             self._upper_limit = None
             is_first_item = True
@@ -639,6 +644,7 @@ class DecimalRange(Range):
                     raise errors.InterfaceError("hyphen (-) at end must be followed by number")
 
                 # Decide upon the result.
+                range_item = None
                 if lower is None:
                     if upper is None:
                         if ellipsis_found:
@@ -676,6 +682,11 @@ class DecimalRange(Range):
                     self._items.append(range_item)
                 if _tools.is_eof_token(next_token):
                     end_reached = True
+
+            if not self._items:
+                raise errors.InterfaceError(
+                    "range must contain at least one number but is: %s" % _compat.text_repr(description), location
+                )
 
             assert self.precision >= 0
             assert self.scale >= self.precision
